@@ -379,30 +379,32 @@ PowerCase(prev, hi, n, s) ==
                                    ELSE IF kind = "scalar" THEN pw[Pk(st, prev.K + 1, Len(pw))] ELSE ROne]
   IN  [prev EXCEPT !.id = ChainId(hi, n, s), !.step = s, !.pa = pa,
                    !.op = [kind |-> "power", pl |-> "keep", pw |-> kind]]
+\* an attempt = the case together with its power table (computed once) and whether it is admissible
+Attempt(c) == LET pt == PowTab(c, FullF(c), c.U, c.pe)
+              IN  [c |-> c, pt |-> pt, ok |-> PowValid(c, pt) /\ (SolverApplies(c) => SolOf(c).ok)]   \* (a chain wants the solver on every step)
 RECURSIVE FirstValid(_, _, _, _, _)
 FirstValid(prev, hi, n, s, r) ==
-  IF r >= 3 THEN r
-  ELSE LET c == InitCase(prev, hi, n, s, r)
-       IN  IF PowValid(c, PowTab(c, FullF(c), c.U, c.pe)) THEN r ELSE FirstValid(prev, hi, n, s, r + 1)
-ChainCase(prev, hi, n, s) == IF Chains[hi].ops[s] = "power" THEN PowerCase(prev, hi, n, s)
-                             ELSE InitCase(prev, hi, n, s, FirstValid(prev, hi, n, s, 0))
+  LET a == Attempt(InitCase(prev, hi, n, s, r))
+  IN  IF a.ok \/ r >= 3 THEN a ELSE FirstValid(prev, hi, n, s, r + 1)
+ChainAttempt(prev, hi, n, s) == IF Chains[hi].ops[s] = "power"
+                                THEN LET c == PowerCase(prev, hi, n, s) IN [c |-> c, pt |-> PowTab(c, FullF(c), c.U, c.pe), ok |-> TRUE]
+                                ELSE FirstValid(prev, hi, n, s, 0)
 
 \* what the caches of the real objects hold after the step (readers fill them)
 CacheAfter(c) ==
   [ pa   |-> IF c.op.kind = "power" /\ c.op.pw = "none" /\ Dev.PowerNoneKeepsCaches THEN cache.pa ELSE c.pa,
     part |-> IF c.op.kind = "reinit" /\ c.op.pl = "keep" /\ Dev.PlExpansionReusedOnEqualShape THEN cache.part ELSE PartOf(c) ]
 
-Step(c) ==
-  LET pt == PowTab(c, FullF(c), c.U, c.pe)
-  IN  /\ PowValid(c, pt)
-      /\ inp' = c
-      /\ out' = OutOf(c, pt)
-      /\ cache' = CacheAfter(c)
-ChainStart == \E hi \in HLo..HHi : \E n \in Lo..Hi : inp = NoCase /\ Step(ChainCase(inp, hi, n, 1))
+Step(a) ==
+  /\ PowValid(a.c, a.pt)
+  /\ inp' = a.c
+  /\ out' = OutOf(a.c, a.pt)
+  /\ cache' = CacheAfter(a.c)
+ChainStart == \E hi \in HLo..HHi : \E n \in Lo..Hi : inp = NoCase /\ Step(ChainAttempt(inp, hi, n, 1))
 ChainStep  == /\ inp # NoCase
               /\ inp.chain # <<>>
               /\ inp.step < Len(Chains[inp.chain[1]].ops)
-              /\ Step(ChainCase(inp, inp.chain[1], inp.chain[2], inp.step + 1))
+              /\ Step(ChainAttempt(inp, inp.chain[1], inp.chain[2], inp.step + 1))
 Next == PickExhaustive \/ PickSeeded \/ ChainStart \/ ChainStep
 
 Emit == EmitCase([inp |-> inp', out |-> out'])
